@@ -241,7 +241,8 @@ class PairDomain(Domain):
         fn = self._fn(ev)
         if b == E:
             if len(keys) == 2:
-                vers = [v for f_, v in ev.target.stamp if f_ == E]
+                vers = [v for f_, v in (set(ev.target.stamp)
+                                        | set(ev.target.binds)) if f_ == E]
                 tv = min(vers) if vers else st.versions.get(E, 0)
                 if any(ver > tv and ee == norm(keys[0])
                        for ver, ee in st.data['rowdrops']):
